@@ -83,7 +83,7 @@ def function_level():
 
 
 def run():
-    chk = Check("C12", props_modules=["GFO.Props.C12", "GFO.Gen.StopGenCheck"], gen_steps=(translators.gen_stop,))
+    chk = Check("C12", props_modules=["GFO.Props.C12", "GFO.Gen.StopGenCheck", "GFO.Gen.DriverGenCheck"], gen_steps=(translators.gen_stop, translators.gen_driver,))
     chk.build_and_audit()
     r = C.rng("C12")
     quick = C.tier() != "thorough"
